@@ -31,7 +31,7 @@ func checkC09(c *Ctx, r *Result, tier string) {
 	nc, nw, ns := checkCondProtocol(c, r, lfs, "R09a", func(class string) bool { return len(class) >= 5 && class[:5] == "pool." })
 	r.Floor("R09a-conds", nc, 1)
 	r.Floor("R09a-waits", nw, 1)
-	r.Floor("R09a-signals", ns, 6)
+	r.Floor("R09a-signals", ns, 4)
 
 	// R09b guarded-by
 	g := newGuardChecker(c, lfs)
@@ -56,7 +56,7 @@ func checkC09(c *Ctx, r *Result, tier string) {
 			r.Undecide("field ThreadPool.%s not found", fname)
 		}
 	}
-	r.Floor("R09b-guard", total, 20)
+	r.Floor("R09b-guard", total, 12)
 
 	// R09b worker loop
 	c09WorkerLoop(c, r)
